@@ -119,6 +119,19 @@ Definition write_blob (now : Z) (st : bstore) (k : bkey) (descr : N) (dur : Z) (
     | None => if ok3 then (st3, WOk size) else (st3, WFail 0 WState)
     end.
 
+(* a write whose process dies (or whose storage stops answering) after its first [ncalls] storage
+   calls: the state row first, then one call per chunk; nothing records how the write ended *)
+Definition write_crashed (now : Z) (st : bstore) (k : bkey) (descr : N) (dur : Z) (quota : option N)
+           (reads : list chunk) (ncalls : nat) : bstore :=
+  match ncalls with
+  | O => st
+  | S m =>
+      let s0 := mkState descr 0 StInProcess false dur in
+      let '(st1, ok) := ins now k dur st (pkey k 0) ccol_state (VState s0) in
+      if negb ok then st1
+      else let '(st2, _, _) := write_chunks now k dur quota st1 (firstn m reads) 0 0 1 in st2
+  end.
+
 (* ---- reading ---- *)
 
 Inductive rerr := RNotFound | RCorrupted | RFuel.
@@ -146,10 +159,12 @@ Fixpoint read_buckets (fuel : nat) (now : Z) (st : bstore) (k : bkey) (b : N) : 
 
 Definition total_len (cs : list chunk) : N := fold_right (fun c acc => clen c + acc) 0 cs.
 
-Definition read_blob (now : Z) (st : bstore) (k : bkey) : rres :=
+Definition read_blob_gen (req : bool) (now : Z) (st : bstore) (k : bkey) : rres :=
   let so := query_state now st k in
   match so with
   | Some s => if bs_err s then RFail RCorrupted else
+      (* a BLOB whose write has not recorded its end (still going on, or its process died) *)
+      if req && negb (status_eqb (bs_status s) StCompleted) then RFail RCorrupted else
       match read_buckets (S (length st)) now st k 1 with
       | None => RFail RFuel
       | Some cs => if total_len cs =? bs_size s then ROk s cs else RFail RCorrupted
@@ -161,6 +176,8 @@ Definition read_blob (now : Z) (st : bstore) (k : bkey) : rres :=
       | _ => RFail RCorrupted
       end
   end.
+
+Definition read_blob := read_blob_gen blob_read_requires_completed.
 
 End Blob.
 
@@ -202,7 +219,9 @@ Record robs := mkRobs { ro_code : N; ro_size : N; ro_status : N; ro_haserr : boo
 Inductive bop :=
 | BWrite (now : Z) (k : bkey) (descr : N) (dur : Z) (quota : option N) (reads : list tchunk) (e : ending)
          (wlen wdigest : N) (calls : list scall) (res : wobs)
-| BRead (now : Z) (k : bkey) (res : robs).
+| BRead (now : Z) (k : bkey) (res : robs)
+(* a write on a key not written before whose storage calls stop taking effect after the first [ncalls] *)
+| BCrash (now : Z) (k : bkey) (descr : N) (dur : Z) (quota : option N) (reads : list tchunk) (ncalls : nat).
 
 Definition trace := list bop.
 
@@ -265,6 +284,8 @@ Fixpoint agrees_from (st : bstore N) (t : trace) : bool :=
           let fin_call := if is_persistent k then SPut (pkey k 0) ccol_state 0 else SCas (pkey k 0) ccol_state (dur * 86400)%Z in
           list_eqb scall_match (st_call :: chunk_calls k dur quota reads 0 0 1 ++ [fin_call]) calls in
       code_ok && calls_ok && agrees_from st' rest
+  | BCrash now k descr dur quota reads n :: rest =>
+      agrees_from (write_crashed now st k descr dur quota reads n) rest
   | BRead now k res :: rest =>
       let '(code, rows, size, stc, haserr, descr) := robs_of (read_blob now st k) in
       (* a temporary BLOB whose rows expired: backends differ in whether the plain range read
@@ -299,6 +320,7 @@ Fixpoint last_write (k : bkey) (hist : list bop) : option bop :=
   match hist with
   | [] => None
   | (BWrite _ k' _ _ _ _ _ _ _ _ _ as w) :: rest => if bkey_eqb k k' then Some w else last_write k rest
+  | (BCrash _ k' _ _ _ _ _ as w) :: rest => if bkey_eqb k k' then Some w else last_write k rest
   | _ :: rest => last_write k rest
   end.
 
@@ -315,6 +337,9 @@ Definition read_ok_for (w : bop) (now : Z) (res : robs) : bool :=
         else negb (ro_code res =? 0)
       else if wo_code wres =? 2 then true  (* write refused at the state row: earlier BLOB stays *)
       else negb (ro_code res =? 0)
+  | BCrash _ _ _ _ _ _ ncalls =>
+      (* nothing records how the write ended: whatever it left must not read back as a BLOB *)
+      match ncalls with O => ro_code res =? 1 | _ => negb (ro_code res =? 0) end
   | _ => true
   end.
 
@@ -338,6 +363,9 @@ Fixpoint satisfies_from (hist : list bop) (t : trace) : bool :=
   | (BWrite _ _ _ _ _ _ _ _ _ _ res as w) :: rest =>
       write_ok_for w &&
       satisfies_from (if wo_code res =? 2 then hist else w :: hist) rest
+  | (BCrash _ k _ _ _ _ _ as w) :: rest =>
+      (* judged only on keys not written before (the generator crashes first writes only) *)
+      satisfies_from (match last_write k hist with None => w :: hist | Some _ => hist end) rest
   | (BRead now k res as r) :: rest =>
       (match last_write k hist with
        | Some w => read_ok_for w now res
